@@ -74,13 +74,15 @@ const char* SkipToEnd(const char* s) {
   return s;
 }
 
+/// Returns a pointer to the quote matching s[0], or to the terminating
+/// null character if the quote is not closed.
 const char* SkipToMatchingQuote(const char* s) {
   assert((*s == '\'') || (*s == '"'));
   char quote = s[0];
   ++s;
-  while (*s != quote)
+  while (*s && *s != quote)
     ++s;
-  return ++s;
+  return s;
 }
 
 struct Deleter {
@@ -271,8 +273,9 @@ std::string OptionHelper<std::string>::Parse(const char *&s, bool splitString) {
   }
   if (quoted(s))
   {
-    s = SkipToMatchingQuote(s);
-    return std::string(start + 1, s - start - 2);
+    const char *end = SkipToMatchingQuote(s);
+    s = *end ? end + 1 : end;     // an unterminated quote extends to the end
+    return std::string(start + 1, end - start - 1);
   }
   else
   {
